@@ -28,7 +28,10 @@ def _root_.Typedpy.Alias.AliasRow.safe (r : AliasRow) : Bool := !r.argMutated &&
 def knownRows : List (OpK × Kind × Cat) := [
   -- `AnyOf.serialize` hands every value to its last non-None option: a stored collection reaches `Boolean.serialize` /
   -- `Enum.serialize`, which return whatever they are given — `<field>.serialize(x.f)` is the live collection
-  (.fieldSerialize, .misfit, .scalar), (.fieldSerialize, .misfit, .enum)]
+  (.fieldSerialize, .misfit, .scalar), (.fieldSerialize, .misfit, .enum),
+  -- OneOf / AllOf keep a private deep copy of "the mutable kinds" (`_private_copy`, commit 89fd84a) — a TUPLE value is
+  -- stored as given, with the caller's mutable elements inside
+  (.construct, .oneOf, .tupl), (.construct, .allOf, .tupl), (.setattr, .oneOf, .tupl), (.setattr, .allOf, .tupl)]
 
 /-- rows that were findings of the first round and were repaired in typedpy: the `return value` short cuts
     of Array/Deque/Map.serialize (commit 5e8a8ad: fast serialization and `<field>.serialize` handed out the
